@@ -398,7 +398,7 @@ class SimSSHServer:
         ssh2 = p.get('ssh2', True)
         ssh1 = p.get('ssh1')
         if early_kexinit and ssh2:
-            yield ('send', 'kexinit', wire.frame(self.kexinit()))
+            yield ('send', 'kexinit', self.framed_kexinit())
         line = yield ('line',)
         cb = line.rstrip(b'\r\n')
         self.log['banners_rx'].append(cb.decode('latin-1'))
@@ -416,7 +416,7 @@ class SimSSHServer:
             yield ('close',)
             return
         if not early_kexinit:
-            yield ('send', 'kexinit', wire.frame(self.kexinit()))
+            yield ('send', 'kexinit', self.framed_kexinit())
         log['stage'] = 'kexinit_sent'
         payload = yield ('packet',)
         while payload and payload[0] in (wire.MSG_IGNORE, wire.MSG_DEBUG):
@@ -483,6 +483,8 @@ class SimSSHServer:
             self.log['kex_inits'] += 1
             e = wire.Reader(payload[1:]).mpint_raw()
             log['rx'].append(('gex_init_e', e.hex()[:64], len(e), pmod.bit_length()))
+            x = self.w.last_x
+            log['rx'].append(('gex_e_matches_x', x is not None and int.from_bytes(e, 'big') == pow(g, x, pmod)))
             self._check_e(log, e, pmod)
             reply = bytes([wire.MSG_GEX_REPLY]) + wire.sstr(blob) + wire.mpint(wire.det_int(min(size, 512) - 1, 'f')) + wire.sstr(wire.sstr(keys_) + wire.sstr(wire.det_bytes(64, 'sig')))
             yield ('send', 'reply', wire.frame(reply))
@@ -531,6 +533,17 @@ class SimSSHServer:
         log['stage'] = 'ssh1_pubkey_sent'
         yield ('eof',)
         yield ('close',)
+
+    def framed_kexinit(self):
+        payload = self.kexinit()
+        extra = int(self.p.get('pad_extra', 0))
+        if not extra and 'pad_byte' not in self.p:
+            return wire.frame(payload)
+        pad = 8 - ((5 + len(payload)) % 8)
+        if pad < 4:
+            pad += 8
+        pad = min(255 - (255 - pad) % 8, pad + 8 * extra)
+        return wire.frame(payload, pad_len=pad, pad_byte=bytes([int(self.p.get('pad_byte', 0))]))
 
     def kexinit(self):
         p = self.p
